@@ -8,5 +8,6 @@ ASSUME P > NMax + 1
 MCNext == \/ \E nn \in NMin..NMax : \E tt \in 2..(IF nn < TMax THEN nn ELSE TMax) : Split(nn, tt)
           \/ \E S \in SUBSET (1..n) : Recover(S)
           \/ \E S \in SUBSET (1..n) : \E sub \in Subs(S) : Combine(S, sub)
+          \/ Replay
 MCSpec == Init /\ [][MCNext]_vars
 ====
